@@ -54,7 +54,7 @@ class Recorder:
         self.direction = None
 
 
-def build(tree, thick, ops=("mean", "sum"), with_dx=True, resolution=None, vector_2d=False, with_dy=True, direction="z"):
+def build(tree, thick, ops=("mean", "sum"), with_dx=True, resolution=None, vector_2d=False, with_dy=True, direction="z", call_operation="max", reuse=None, call_mode=None):
     hooks = core_hooks()
     hooks["ext"].update(np_hooks({
         "numpy.abs": lambda x: OpTok("abs", x, None) if isinstance(x, ArrTok) else Sym(("abs", origin_of(x))),
@@ -83,7 +83,7 @@ def build(tree, thick, ops=("mean", "sum"), with_dx=True, resolution=None, vecto
     scalar = ev0.instantiate(ci, [ArrTok("RHO", "g", (N,), "density")], {"aux": dict(aux), "operation": ops[0], "mode": "image"}, None)
     vector = ev0.instantiate(ci, [vel], {"aux": dict(aux), "operation": ops[1], "mode": "vec"}, None)
     scalar2 = ev0.instantiate(ci, [ArrTok("TEMP", "K", (N,), "temperature")], {"aux": dict(aux), "mode": "contour"}, None)   # operation from the call
-    layers = [scalar, vector, scalar2]
+    layers = [scalar, vector, scalar2] if reuse is None else reuse
     # ---- stubs
     def basis_stub(direction=None, data=None, dx=None, dy=None, origin=None):
         rec.direction = dict(direction=direction, data=data, dx=dx, dy=dy, origin=origin)
@@ -105,7 +105,9 @@ def build(tree, thick, ops=("mean", "sum"), with_dx=True, resolution=None, vecto
                         "plot/render.py::render": lambda **kw: setattr(rec, "render", kw) or {"ax": None, "fig": None}}
     dx = QT("DX@kpc", "kpc") if with_dx else None
     kwargs = dict(direction=direction, dx=dx, dy=QT("DY@kpc", "kpc") if with_dx and with_dy else None, dz=(QT("DZ@kpc", "kpc") if thick else None), plot=False,
-                  operation="max", resolution=resolution)
+                  operation=call_operation, resolution=resolution)
+    if call_mode is not None:
+        kwargs["mode"] = call_mode
     fi = tree.func(MAP)
     ev = ModelEval(tree, fi, {}, hooks)
     out = ev.invoke(fi, layers, kwargs, None)
@@ -361,6 +363,46 @@ def check_map(run, tree, aspects=("slots", "rendered", "geometry", "inputs"), de
                        "a second map with the same resolution dict inherits the derived depth resolution of the first", nontrivial=False)
         except ERR as e:
             run.unresolved("%s[%s]" % (MAP, label), fi.where(), "cannot fold: %s" % e)
+
+
+# =============================================================================== one Layer object, two map() calls
+def layer_state(tree, hooks, layer):
+    return {k: (v if not isinstance(v, dict) else dict(v)) for k, v in layer._attrs.items() if k in ("mode", "operation", "norm", "vmin", "vmax", "bins", "weights", "kwargs")}
+
+
+def check_map_history(run, tree):
+    """the same Layer objects handed to two map() calls with different call-level options: the second call renders exactly what a call with fresh
+    Layers renders, and the caller's Layers carry the same options before and after"""
+    fi = tree.func(MAP)
+    run.analysed(fi)
+    for label, first, second in (("thick map with operation='nansum', then operation='mean'", dict(thick=True, call_operation="nansum"), dict(thick=True, call_operation="mean")),
+                                 ("thick map with operation='nansum', then a thin map", dict(thick=True, call_operation="nansum"), dict(thick=False, call_operation="max"))):
+        construct = "%s::layers[the same Layer objects in two calls: %s]" % (MAP, label)
+        try:
+            try:
+                rec1, out1, layers, hooks = build(tree, ops=(None, "sum"), resolution={"x": 8, "y": 6}, **first)
+                before = [layer_state(tree, hooks, l) for l in layers]
+                rec2, out2, _, _ = build(tree, ops=(None, "sum"), resolution={"x": 8, "y": 6}, reuse=layers, **second)
+                after = [layer_state(tree, hooks, l) for l in layers]
+                rec3, out3, fresh, _ = build(tree, ops=(None, "sum"), resolution={"x": 8, "y": 6}, **second)
+            except (Raised, ProgramRaised) as e:
+                run.violated(construct, fi.where(), "raises %s" % e, "two maps of one Layer")
+                continue
+
+            def rendered(out):
+                rl = out._attrs.get("layers") if isinstance(out, PyObj) else None
+                return [(origin_of(l.get("data")), l.get("mode"), repr(l.get("unit"))) if isinstance(l, dict) else l for l in (rl or [])]
+            problems = []
+            if rendered(out2) != rendered(out3):
+                diff = [i for i, (a, b) in enumerate(zip(rendered(out2), rendered(out3))) if a != b]
+                problems.append("layers %s of the second call differ from the same call with fresh Layers: %s (fresh: %s)" % (
+                    diff, [rendered(out2)[i][0] for i in diff][:1], [rendered(out3)[i][0] for i in diff][:1]))
+            if before != after or before != [layer_state(tree, hooks, l) for l in fresh]:
+                problems.append("the caller's Layers changed: %s -> %s" % ([b.get("operation") for b in before], [a.get("operation") for a in after]))
+            run.ob(construct, not problems, fi.where(), "; ".join(problems) or "the second call renders what a call with fresh Layers renders; the caller's Layers are untouched",
+                   "call-level options of one map() stick to the caller's Layer and change the next map of the same Layer (e.g. nansum turns 'no cell' into 0.0)")
+        except ERR as e:
+            run.unresolved(construct, fi.where(), "cannot fold: %s" % e)
 
 
 # =============================================================================== what map() hands to get_direction
